@@ -360,6 +360,9 @@ func jsonSig(jp *jsonProgram, t types.Type, side string, depth int) string {
 			sort.Strings(cs)
 			return pre + "oneOf(" + strings.Join(vs, "|") + ";disc=" + oo.Discriminator + ";cases=" + strings.Join(cs, ",") + ")"
 		}
+		if why := arrayComponentProblem(jp.P, n); why != "" {
+			pre += "nil-not-[]|"
+		}
 		inner = n.Underlying()
 	}
 	switch u := inner.(type) {
@@ -450,7 +453,10 @@ func runC18(r *Report) {
 		return
 	}
 	defer os.RemoveAll(tmp)
-	type src struct{ name, dir, label string; flags []string }
+	type src struct {
+		name, dir, label string
+		flags            []string
+	}
 	var srcs []src
 	for _, sub := range []string{"tests", "examples"} {
 		ents, _ := os.ReadDir(filepath.Join(repoDir(), sub))
